@@ -368,6 +368,7 @@ type DocOutcome struct {
 	Lexemes []Lex    `json:"lexemes,omitempty"`
 	LexErr  *ErrInfo `json:"lex_err,omitempty"` // error that ended the stream (nil = io.EOF)
 	Escapes []Escape `json:"escapes,omitempty"`
+	Unstable string  `json:"unstable,omitempty"`
 }
 
 func NewDoc(text string, trailing bool) schema.Document {
@@ -405,6 +406,55 @@ func ObserveDoc(text string, trailing bool, withLexemes bool) *DocOutcome {
 			}
 			o.LexErr = &ErrInfo{GoType: "verif", Code: -1, Message: "lexeme stream does not end"}
 		})
+	}
+	return o
+}
+
+// ObserveDocSeq runs the operations named by order (c = Check, l = Len, x = the whole lexeme stream)
+// one after the other on ONE document object; an operation that occurs twice must answer the same
+// both times (Unstable names the first one that does not).
+func ObserveDocSeq(text string, trailing bool, order string) *DocOutcome {
+	o := &DocOutcome{}
+	d := NewDoc(text, trailing)
+	seen := map[rune]string{}
+	note := func(op rune, result string) {
+		if prev, ok := seen[op]; ok && prev != result && o.Unstable == "" {
+			o.Unstable = fmt.Sprintf("%c answered %s first and %s later (order %q)", op, prev, result, order)
+		}
+		seen[op] = result
+	}
+	for _, op := range order {
+		op := op
+		var e *Escape
+		switch op {
+		case 'c':
+			e = Trap("doc.Check", func() { o.Check = Describe(d.Check()); note(op, o.Check.String()) })
+		case 'l':
+			e = Trap("doc.Len", func() {
+				n, err := d.Len()
+				o.Len, o.LenErr = n, Describe(err)
+				note(op, fmt.Sprintf("%d,%s", n, o.LenErr.String()))
+			})
+		case 'x':
+			e = Trap("doc.NextLexeme", func() {
+				o.Lexemes, o.LexErr = nil, nil
+				for i := 0; i < 4*len(text)+16; i++ {
+					lex, err := d.NextLexeme()
+					if err != nil {
+						if !errors.Is(err, io.EOF) {
+							o.LexErr = Describe(err)
+						}
+						note(op, fmt.Sprintf("%v,%s", o.Lexemes, o.LexErr.String()))
+						return
+					}
+					o.Lexemes = append(o.Lexemes, LexOf(lex))
+				}
+				o.LexErr = &ErrInfo{GoType: "verif", Code: -1, Message: "lexeme stream does not end"}
+			})
+		}
+		if e != nil {
+			o.Escapes = append(o.Escapes, *e)
+		}
 	}
 	return o
 }
